@@ -14,7 +14,8 @@ VARIABLES spec, outcome
 DrivingForce == {"solver", "solver_inner", "permeate_composition", "separation_factor", "ideal_curve", "nonideal_curve",
                  "ideal_iso", "ideal_noniso", "nonideal_iso", "nonideal_noniso", "pure_flux", "curve_from_fluxes",
                  "curve_load"}        \* a curve read from a file (DiffusionCurveSet.load / Membrane.load) states its permeate side too
-UsesModel    == {"activity", "partial_pressures", "solver", "permeate_composition", "ideal_curve", "ideal_iso", "ideal_noniso"}
+UsesModel    == {"activity", "partial_pressures", "solver", "permeate_composition", "separation_factor", "ideal_curve", "nonideal_curve",
+                 "ideal_iso", "ideal_noniso", "nonideal_iso", "nonideal_noniso"}
 Entries      == DrivingForce \cup UsesModel \cup {"mixture_construct", "curve_construct", "activation_energy", "get_permeance"}
 \* entry points that need the membrane's activation energy: the two membrane methods, and the non-ideal models when they
 \* work from a single curve at a temperature the feed does not stay at
